@@ -639,7 +639,7 @@ func (p c07) runHist(sc *Scenario, prog *starlark.Program, ref c07run, S uint64,
 	c := w.NewCtx("main")
 	pre := w.Predeclared()
 	// Small auxiliary programs with known cost.
-	aux := []string{"x = 1\n", "def f(n):\n    t = 0\n    for i in range(n):\n        t += i\n    return t\ny = f(20)\nprobe(y)\n", "z = [i * i for i in range(15)]\nprobe(len(z))\n"}
+	aux := []string{"x = 1\n", "pass\n", "def k0():\n    return \"ok\"\nk1 = lambda: 0\n", "def f(n):\n    t = 0\n    for i in range(n):\n        t += i\n    return t\ny = f(20)\nprobe(y)\n", "z = [i * i for i in range(15)]\nprobe(len(z))\n"}
 	var auxProg []*starlark.Program
 	var auxS []uint64
 	for i, src := range aux {
@@ -665,6 +665,13 @@ func (p c07) runHist(sc *Scenario, prog *starlark.Program, ref c07run, S uint64,
 		return
 	}
 	var fns []starlark.Value
+	// functions whose body is a single constant (an execution all the same:
+	// cancellation and limits belong to the thread)
+	if cg, cerr := starlark.ExecFileOptions(sc.D.FileOptions(), &starlark.Thread{Name: "consts"}, "consts.star", "def c0():\n    pass\ndef c1():\n    return \"ok\"\nc2 = lambda: 0\nc3 = lambda: 1.5\n", nil); cerr == nil {
+		for _, name := range cg.Keys() {
+			fns = append(fns, cg[name])
+		}
+	}
 	for _, name := range g.Keys() {
 		if f, ok := g[name].(*starlark.Function); ok && f.NumParams() == 0 {
 			fns = append(fns, f)
@@ -720,7 +727,7 @@ func (p c07) runHist(sc *Scenario, prog *starlark.Program, ref c07run, S uint64,
 			} else if op.Op == "call" && len(fns) > 0 {
 				// cost unknown: only the cancelled-case clauses apply
 				need = 0
-				pv := safeRun(func() { _, err = starlark.Call(c.Th, fns[int(op.A)%len(fns)], nil, nil) })
+				pv := safeRun(func() { _, err = starlark.Call(c.Th, fns[(int(op.A)+i*5)%len(fns)], nil, nil) })
 				if pv != nil {
 					return
 				}
